@@ -309,6 +309,8 @@ class API:
             """
             if isinstance(idl, str):
                 idl = Path(idl)
+            if self._generate_config is None:
+                raise ConfigurationException("Missing configuration for 'generate'")
 
             external_types_builder = ExternalTypesBuilder(self._external_types_model)
 
